@@ -205,6 +205,17 @@ let handle (cmd : ostring) (args : ostring list) : ostring =
       show_result (fun l -> hex_of_bytes_strict (x_write_file l)) (x_run pipe_crypto (options_of opts) (secrets_of keylog) (items_of items))
   | "run_tls_file", [opts; keylog; items] ->
       show_result (fun l -> hex_of_bytes_strict (x_write_file l)) (x_run_tls pipe_crypto (options_of opts) (secrets_of keylog) (items_of items))
+  | "keylog", [text] ->
+      let lab = function LClientRandom -> "CLIENT_RANDOM" | LRsa -> "RSA" | LClientEarly -> "CLIENT_EARLY_TRAFFIC_SECRET" | LClientHs -> "CLIENT_HANDSHAKE_TRAFFIC_SECRET"
+                       | LServerHs -> "SERVER_HANDSHAKE_TRAFFIC_SECRET" | LClientApp -> "CLIENT_TRAFFIC_SECRET_0" | LServerApp -> "SERVER_TRAFFIC_SECRET_0"
+                       | LServerEarly -> "SERVER_EARLY_TRAFFIC_SECRET" | LOther -> "OTHER" in
+      String.concat "," (List.map (fun k -> lab k.s_label ^ ":" ^ hex_of_bytes_strict k.s_random ^ ":" ^ (match k.s_value with Some v -> hex_of_bytes_strict v | None -> "!"))
+                           (x_keylog (bytes_of_hex text)))
+  | "cli", [toks] ->
+      let tok_of t = if t = "P" then TP else if t = "M" then TM else if t = "F" then TFlag else TVal (bytes_of_hex (String.sub t 1 (String.length t - 1))) in
+      show_result (fun ((ports, pm), keep) -> String.concat "," (List.map hex_of_z ports) ^ ";" ^
+                                              String.concat "," (List.map (fun (a, b) -> hex_of_z a ^ "=" ^ hex_of_z b) pm) ^ ";" ^ (if keep then "1" else "0"))
+        (x_cli (if toks = "-" then [] else List.map tok_of (split ',' toks)))
   | "ping", _ -> "pong"
   | _ -> "ERR unknown command " ^ cmd
 
